@@ -257,6 +257,7 @@ P["C08"] = {
     "assumptions": ["kernel contract: F_BUFFER => id < pool_size and n <= buf_size", "conservation over whole histories (Kernel + Limbo + Owned is a partition) is the chain of these per-step contracts; the chaining lemma is argued in DESIGN.md, not machine-checked"],
     "obligations": [
         K("c08.init_release.roundtrip", "uio.rs", UIO + "c08_init_release_roundtrip", "init_buffer(id, n) == slot id, n bytes; release(ptr with any edited length) writes (base+id*bs, bs, id) at tail & mask, tail+1 (all u16 tails), other entries/canaries untouched", ["io_uring::io::ReadBufPool::init_buffer", "io_uring::io::ReadBufPool::release"], bounded="pool 4 x 8 bytes"),
+        VV("c08.pool_lemmas", "pool", "for EVERY buffer size >= 1, pool size (power of two) and 16-bit tail: (base+id*bs - base)/bs == id (release re-offers the slot init_buffer handed out); slots of distinct ids are disjoint; tail & mask in range and pool_size consecutive releases hit distinct ring entries across the 2^16 wrap", ["(arithmetic used by) io_uring::io::ReadBufPool::release", "io_uring::io::ReadBufPool::init_buffer"], ["lemma_id_roundtrip", "lemma_slots_disjoint", "lemma_tail_slot"]),
         K("c08.release.rg", "uio.rs", UIO + "c08_release_rg", "release under interference at the re-register lock: entry written at the tail observed under the lock, tail advances from there", ["io_uring::io::ReadBufPool::release"], kind="rely-guarantee", bounded="pool 4 x 8 bytes"),
         K("c08.readbuf.release_once", "read_buf.rs", RB + "c08_readbuf_release_once", "ReadBuf::release then release/Drop: exactly one buffer re-offered, and it is this ReadBuf's slot; released ReadBuf owns nothing", ["io::read_buf::ReadBuf::release", "io::read_buf::<impl Drop for ReadBuf>::drop"], bounded="pool 4 x 8 bytes"),
         K("c08.map.read", "uio.rs", UIO + "c13_enc_read_pool", "ReadOp with a pool buffer: BUFFER_SELECT from the pool's group; F_BUFFER id => the ReadBuf owns exactly slot id with len n", ["io_uring::io::ReadOp::fill_submission", "io_uring::io::ReadOp::map_ok", "io::read_buf::ReadBuf::buffer_init"], bounded="pool 4 x 8 bytes"),
@@ -284,7 +285,8 @@ P["C14"] = {
     ],
 }
 P["C15"] = {
-    "level_text": "Proof of single-step differential contracts on the real ReadBuf methods from an arbitrary valid state (symbolic contents and fill level of a real pool slot placed between a neighbouring slot and canary bytes): remove with every range form equals Vec::drain semantics index by index; truncate/clear/set_len only rewrite the length; extend_from_slice appends in order or refuses without change when it would exceed the slot; spare_capacity_mut is exactly the unused tail; nothing outside the slot is touched and the base pointer (which release uses to recompute the slot) never changes. Any sequence of edits is a chain of these steps.",
+    "level_category": "other",
+    "level_text": "Bounded verification (CBMC, every input for a fixed 8-byte slot; labelled bounded, not counted as proved) of single-step differential contracts on the real ReadBuf methods from an arbitrary valid state (symbolic contents and fill level of a real pool slot placed between a neighbouring slot and canary bytes): remove with every range form equals Vec::drain semantics index by index; truncate/clear/set_len only rewrite the length; extend_from_slice appends in order or refuses without change when it would exceed the slot; spare_capacity_mut is exactly the unused tail; nothing outside the slot is touched and the base pointer (which release uses to recompute the slot) never changes. Any sequence of edits is a chain of these steps.",
     "level_note": "Slot size fixed at 8 bytes (bounded), all fill levels 0..=8 and all positions. Invalid ranges are shown to panic (should_panic harness); 'without modifying anything' after the panic is not observable in Kani. Release-only behaviour of `idx + 1` for usize::MAX bounds (F12) is not decided: Kani checks debug-build semantics where it panics.",
     "functions": [
         {"file": "src/io/read_buf.rs", "fn": r"pub fn remove<R: RangeBounds<usize>>\(&mut self, range: R\)"},
